@@ -41,6 +41,8 @@ func C01Config(prop string, r *Rand, tier string) map[string]int64 {
 	c["w_restart"] = int64(r.Range(0, 10))
 	c["w_leaf"] = int64(r.Range(3, 12))
 	c["w_high"] = int64(r.Range(2, 8))
+	// % of deposit transactions whose first trace request fails (transient RPC failure)
+	c["p_tracefail"] = int64([]int{0, 0, 10, 30}[r.Intn(4)])
 	return c
 }
 
@@ -48,13 +50,27 @@ func C01Config(prop string, r *Rand, tier string) map[string]int64 {
 type evmClient struct {
 	simulated.Client
 	traces map[common.Hash]*TraceCall
+	// transient failures of the trace RPC: the first request for a transaction fails when its hash says so
+	pFail  int
+	asked  map[common.Hash]int
+	failed int
 }
+
+var errTraceUnavailable = errors.New("injected transient debug_traceTransaction failure")
 
 func (e *evmClient) Call(result any, method string, args ...any) error {
 	if method != "debug_traceTransaction" || len(args) == 0 {
 		return errors.New("method not served")
 	}
 	h, _ := args[0].(common.Hash)
+	if e.asked == nil {
+		e.asked = map[common.Hash]int{}
+	}
+	e.asked[h]++
+	if e.asked[h] == 1 && int(h[31])%100 < e.pFail {
+		e.failed++
+		return errTraceUnavailable
+	}
 	t, ok := e.traces[h]
 	if !ok {
 		return fmt.Errorf("transaction %s not found", h.Hex())
@@ -155,7 +171,7 @@ func RunC01(prop string, tr *Trace, sc *Script, rec *Recorder, scratch string) (
 	if err != nil {
 		return &Violation{Oracle: "harness", Detail: err.Error()}
 	}
-	ec := &evmClient{Client: cl, traces: map[common.Hash]*TraceCall{}}
+	ec := &evmClient{Client: cl, traces: map[common.Hash]*TraceCall{}, pFail: int(cfg["p_tracefail"])}
 	appender, err := bridgesync.VerifBuildAppender(ec, proxyAddr, false)
 	if err != nil {
 		return &Violation{Oracle: "harness", Detail: "appender: " + err.Error()}
@@ -198,8 +214,17 @@ func RunC01(prop string, tr *Trace, sc *Script, rec *Recorder, scratch string) (
 				if !ok {
 					continue
 				}
-				if err := fn(blk, l); err != nil {
-					return fail("decode", "appender-error", "the bridge appender failed on a real BridgeEvent log: %v", err)
+				// like sync.EVMDownloader (getEventsByBlockRangeWithRetry): an appender that fails is called again with
+				// the same block and the same log until it succeeds
+				for attempt := 0; ; attempt++ {
+					err := fn(blk, l)
+					if err == nil {
+						break
+					}
+					if !errors.Is(err, errTraceUnavailable) || attempt >= 3 {
+						return fail("decode", "appender-error", "the bridge appender failed on a real BridgeEvent log: %v", err)
+					}
+					rec.Stats.Inc("fault_trace_rpc_failed_appender_retried")
 				}
 			}
 			if err := store.P.ProcessBlock(bg, aggsync.Block{Num: n, Hash: hdr.Hash(), Events: blk.Events}); err != nil {
